@@ -77,7 +77,7 @@ package fun
 // Wait returns only from a section in which it observed the counter at zero,
 // or when its context is done.
 //@ func (*WaitGroup).Wait
-//@   props C14 C13
+//@   props C14 C13 C10
 //@   option old section
 //@   option waitkind wait
 //@   requires wg != nil && !held(wg.mu) && ctx != nil
